@@ -95,15 +95,20 @@ pub fn scenarios(tier: Tier) -> Vec<Scenario> {
                 for nsubs in 1..=3 {
                     for &(np, k) in &[(1u32, 2u32), (2, 1), (2, 2), (1, 3)] {
                         for reducers in 1..=2 {
+                            // cap 16 variants carry Task effects (more tasks): keep them small
                             for &cap in &[1usize, 16] {
-                                add(nsubs, np, k, reducers, pf.as_ref(), pn, cap, 3);
+                                let big = (np == 2 && k == 2) || k == 3 || nsubs == 3;
+                                if cap == 16 && (big || reducers == 2) {
+                                    continue;
+                                }
+                                add(nsubs, np, k, reducers, pf.as_ref(), pn, cap, if big { 2 } else { 3 });
                             }
                         }
                     }
                 }
             }
             add(2, 3, 1, 1, pats[2].1.as_ref(), "oddK", 1, 2);
-            add(2, 3, 2, 1, pats[3].1.as_ref(), "p0K", 2, 2);
+            add(2, 2, 2, 1, pats[3].1.as_ref(), "p0K", 16, 2);
         }
     }
     v
